@@ -130,7 +130,7 @@ fn exhaustive_case(mut k: u64) -> String {
 }
 
 fn pad(r: &mut Rng, s: &str) -> String {
-    match r.below(12) {
+    match r.below(40) {
         0 => format!("{s} "),
         1 => format!("{s}\0"),
         2 => format!("{s}\u{a0}"),
@@ -192,7 +192,7 @@ fn kind_of(i: u64, thorough: bool) -> Kind {
     let e = exh_size(thorough);
     if i < e {
         Kind::Exh(i)
-    } else if (i - e) % 10 == 0 {
+    } else if (i - e) % (if thorough { 10 } else { 15 }) == 0 {
         Kind::Bin
     } else {
         Kind::Hook
